@@ -22,6 +22,7 @@ import CaddyModel.C02.Lemmas
 import CaddyModel.C02.Reload
 import CaddyModel.C02.Admin
 import CaddyModel.C02.Key
+import CaddyModel.C02.Listen
 import CaddyModel.C02.Quic
 import CaddyModel.Gen.Glue
 import CaddyModel.C02.Witness
